@@ -83,6 +83,7 @@ pub enum Script {
     CloseBeforeHeaders,
     CloseAfterHeaders,
     Truncate { status: u16, body: String },
+    Overlong { status: u16, body: String },
 }
 
 #[derive(Default, Clone, Debug)]
@@ -176,6 +177,9 @@ impl Server {
                                     Script::Truncate { status, body } => {
                                         let half = &body[..body.len() / 2];
                                         let _ = write!(stream, "HTTP/1.1 {} X\r\nContent-Type: text/xml\r\nContent-Length: {}\r\nConnection: close\r\n\r\n{}", status, body.len(), half);
+                                    }
+                                    Script::Overlong { status, body } => {
+                                        let _ = write!(stream, "HTTP/1.1 {} X\r\nContent-Type: text/xml\r\nContent-Length: {}\r\nConnection: close\r\n\r\n{}", status, body.len() + 64, body);
                                     }
                                     _ => {}
                                 }
@@ -1153,6 +1157,7 @@ def synth_extra(vocab, case, obs):
         body.append("                \"close_before\" => { let sv = Server::start(Script::CloseBeforeHeaders); let p = sv.port; (Some(sv), p) }")
         body.append("                \"close_after\" => { let sv = Server::start(Script::CloseAfterHeaders); let p = sv.port; (Some(sv), p) }")
         body.append("                \"truncate\" => { let sv = Server::start(Script::Truncate { status: 200, body: if reply_exact.is_empty() { FAULT.to_string() } else { reply_exact.clone() } }); let p = sv.port; (Some(sv), p) }")
+        body.append("                \"overlong\" => { let sv = Server::start(Script::Overlong { status: 200, body: reply_exact.clone() }); let p = sv.port; (Some(sv), p) }")
         body.append("                _ => { let sv = Server::start(Script::Reply { status, body: reply.clone() }); let p = sv.port; (Some(sv), p) }")
         body.append("            };")
         body.append("            let (user, pass) = match creds { \"empty_user\" => (\"\", \"tok en-123\"), _ => (\"zv-user\", \"pa ss:w\\u{e4}rd\") };")
